@@ -30,6 +30,7 @@ V = Path(__file__).resolve().parent.parent
 REPO = Path("/repo")
 SCRATCH = Path("/tmp/mut")
 PINNED = "c33cff9"
+OUT_SUFFIX = ""
 
 
 def anchors(pid):
@@ -157,10 +158,13 @@ def find_func(tree, qual):
     return node
 
 
+FUNC_OVERRIDE = None   # {file: [qualified names]} from --functions
+
+
 def make_mutants(pid, per_func, seed):
     rnd = random.Random(f"{pid}-{seed}")
     out = []
-    for f, quals in functions_at(pid).items():
+    for f, quals in (FUNC_OVERRIDE or functions_at(pid)).items():
         path = REPO / f
         if not path.exists():
             continue
@@ -245,7 +249,9 @@ def run_mutant(k, mut, idx):
     return res
 
 
-def worker(k, muts):
+def worker(k, muts, suffix=""):
+    global OUT_SUFFIX
+    OUT_SUFFIX = suffix
     worker_setup(k)
     out = []
     for i, m in enumerate(muts):
@@ -254,7 +260,7 @@ def worker(k, muts):
         except Exception as e:  # noqa
             out.append({**{k2: m[k2] for k2 in ("property", "file", "function", "mutation")}, "result": f"harness-error {type(e).__name__}: {e}"[:300]})
         (V / "mutation").mkdir(exist_ok=True)
-        with open(V / "mutation" / f"{m['property']}.jsonl", "a") as fh:
+        with open(V / "mutation" / f"{m['property']}{OUT_SUFFIX}.jsonl", "a") as fh:
             fh.write(json.dumps(out[-1]) + "\n")
     return out
 
@@ -266,8 +272,18 @@ def main():
     ap.add_argument("--per-func", type=int, default=6)
     ap.add_argument("--max-per-prop", type=int, default=40)
     ap.add_argument("--seed", type=int, default=0)
+    ap.add_argument("--worker-base", type=int, default=0, help="first worker index (scratch dirs /tmp/mut/verif-<k>): use disjoint ranges for concurrent campaigns")
     ap.add_argument("--list", action="store_true")
+    ap.add_argument("--functions", help="restrict to these functions: pyrefact/core.py:get_charnos,_get_charno;pyrefact/x.py:Cls.meth")
+    ap.add_argument("--out-suffix", default="", help="results go to mutation/<Cxx><suffix>.jsonl")
     a = ap.parse_args()
+    global FUNC_OVERRIDE, OUT_SUFFIX
+    OUT_SUFFIX = a.out_suffix
+    if a.functions:
+        FUNC_OVERRIDE = {}
+        for part in a.functions.split(";"):
+            f, names = part.split(":")
+            FUNC_OVERRIDE[f] = names.split(",")
     SCRATCH.mkdir(exist_ok=True)
     allm = []
     for pid in a.props.split(","):
@@ -282,7 +298,7 @@ def main():
         return
     shards = [allm[i::a.workers] for i in range(a.workers)]
     with ProcessPoolExecutor(max_workers=a.workers) as ex:
-        futs = [ex.submit(worker, k, sh) for k, sh in enumerate(shards) if sh]
+        futs = [ex.submit(worker, k + a.worker_base, sh, a.out_suffix) for k, sh in enumerate(shards) if sh]
         for f in as_completed(futs):
             for r in f.result():
                 print(r["property"], r["result"], r["function"], r["mutation"], flush=True)
